@@ -67,7 +67,44 @@ pub struct Inputs {
 }
 
 type Reader = Box<dyn Fn() -> Result<Out, ObserverError>>;
-type Log = Rc<RefCell<Vec<(usize, i64, &'static str)>>>;
+/// Event log shared by every user function of the workload. It is also the crash-point counter of
+/// the fault mode (C13): `arm(n)` makes the n-th user-function call of the current stabilise panic.
+pub struct LogInner {
+    ev: RefCell<Vec<(usize, i64, &'static str)>>,
+    calls: std::cell::Cell<u64>,
+    fault: std::cell::Cell<Option<u64>>,
+}
+pub struct LogGuard<'a>(&'a LogInner);
+impl LogInner {
+    fn new() -> Rc<Self> {
+        Rc::new(LogInner { ev: RefCell::new(vec![]), calls: Default::default(), fault: Default::default() })
+    }
+    fn borrow_mut(&self) -> LogGuard<'_> {
+        LogGuard(self)
+    }
+    fn borrow(&self) -> std::cell::Ref<'_, Vec<(usize, i64, &'static str)>> {
+        self.ev.borrow()
+    }
+    fn arm(&self, n: u64) {
+        self.fault.set(Some(n));
+    }
+}
+impl LogGuard<'_> {
+    fn push(&self, e: (usize, i64, &'static str)) {
+        let n = self.0.calls.get();
+        self.0.calls.set(n + 1);
+        self.0.ev.borrow_mut().push(e);
+        if self.0.fault.get() == Some(n) {
+            self.0.fault.set(None);
+            std::panic::panic_any(crate::core::rt::InjectedPanic);
+        }
+    }
+    fn clear(&self) {
+        self.0.ev.borrow_mut().clear();
+        self.0.calls.set(0);
+    }
+}
+type Log = Rc<LogInner>;
 
 #[derive(Clone, Copy, PartialEq, Debug)]
 pub enum OpKind {
@@ -501,11 +538,20 @@ pub struct Outcome {
     pub nontrivial17: bool,
     pub reads: u64,
     pub fn_events: u64,
+    /// user-function calls of each stabilise, in order
+    pub stab_events: Vec<u64>,
+    /// fault mode: the injected panic was reached; role of the user function that panicked
+    pub fault_kind: Option<&'static str>,
 }
 
 pub fn run_history(seed: u64, which: &str) -> Outcome {
-    let mut o = Outcome { violations: vec![], actions: vec![], nontrivial15: false, nontrivial16: false, nontrivial17: false, reads: 0, fn_events: 0 };
-    let r = catch_unwind(AssertUnwindSafe(|| inner(seed, which, &mut o)));
+    run_history_fault(seed, which, None)
+}
+
+/// `fault = Some((s, n))`: the n-th user-function call of the s-th stabilise panics (C13)
+pub fn run_history_fault(seed: u64, which: &str, fault: Option<(usize, u64)>) -> Outcome {
+    let mut o = Outcome { violations: vec![], actions: vec![], nontrivial15: false, nontrivial16: false, nontrivial17: false, reads: 0, fn_events: 0, stab_events: vec![], fault_kind: None };
+    let r = catch_unwind(AssertUnwindSafe(|| inner(seed, which, &mut o, fault)));
     if let Err(e) = r {
         let prop = if which == "perkey" { "C16" } else { "C15" };
         o.violations.push((prop, format!("panic: {}", crate::panic_message(e))));
@@ -517,10 +563,10 @@ fn diff_keys(a: &B, b: &B) -> BTreeSet<i64> {
     a.keys().chain(b.keys()).copied().filter(|k| a.get(k) != b.get(k)).collect()
 }
 
-fn inner(seed: u64, which: &str, out: &mut Outcome) {
+fn inner(seed: u64, which: &str, out: &mut Outcome, fault: Option<(usize, u64)>) {
     let mut rng = Rng::new(seed);
     let st = IncrState::new();
-    let log: Log = Rc::new(RefCell::new(vec![]));
+    let log: Log = LogInner::new();
     let mut cur = Inputs { left: B::new(), right: B::new(), outer: 1, alt: 2 };
     for _ in 0..rng.below(5) {
         cur.left.insert(rng.range(0, 7), rng.range(0, 4));
@@ -808,9 +854,65 @@ fn inner(seed: u64, which: &str, out: &mut Outcome) {
                     env.alt.set(cur.alt);
                 }
                 log.borrow_mut().clear();
-                st.stabilise();
+                if let Some((s, off)) = fault {
+                    if s == out.stab_events.len() {
+                        log.arm(off);
+                    }
+                }
+                if let Err(e) = catch_unwind(AssertUnwindSafe(|| st.stabilise())) {
+                    if e.downcast_ref::<crate::core::rt::InjectedPanic>().is_none() {
+                        std::panic::resume_unwind(e);
+                    }
+                    // ---- C13: a panic in a user function of a map operator escaped stabilise ----
+                    let kind = log.borrow().last().map(|e| e.2).unwrap_or("?");
+                    out.fault_kind = Some(kind);
+                    let mut read_all = |when: &str, out: &mut Outcome| {
+                        for i in &active {
+                            let Some(reader) = &ops[*i].reader else { continue };
+                            out.reads += 1;
+                            match catch_unwind(AssertUnwindSafe(|| reader())) {
+                                Ok(Err(_)) => {}
+                                Ok(Ok(v)) => out.violations.push(("C13", format!("{when}, the observer of {} still returns {:?} (possibly half-propagated)", ops[*i].name, v))),
+                                Err(p) => out.violations.push(("C13", format!("{when}, reading the observer of {} panicked: {}", ops[*i].name, crate::panic_message(p)))),
+                            }
+                        }
+                    };
+                    read_all(&format!("after a panic in a `{kind}` function escaped stabilise"), out);
+                    log.borrow_mut().clear();
+                    let again = catch_unwind(AssertUnwindSafe(|| st.stabilise()));
+                    let ran = log.borrow().len();
+                    if again.is_ok() {
+                        out.violations.push(("C13", format!("a further stabilise after the escaped panic (in `{kind}`) returned normally ({ran} user functions ran)")));
+                    } else if ran > 0 {
+                        out.violations.push(("C13", format!("a further stabilise after the escaped panic ran {ran} user function(s) before failing")));
+                    }
+                    read_all("after the refused second stabilise", out);
+                    // every handle and the state are dropped, in a random order
+                    let mut things: Vec<(String, Box<dyn std::any::Any>)> = vec![];
+                    for o in ops.drain(..) {
+                        let OpRec { name, observe, reader, .. } = o;
+                        things.push((format!("the node handle of {name}"), Box::new(observe)));
+                        if let Some(r) = reader {
+                            things.push((format!("the observer of {name}"), Box::new(r)));
+                        }
+                    }
+                    things.push(("an input variable".into(), Box::new((vb, vrc))));
+                    things.push(("an input variable".into(), Box::new((vom, vb_r, vom_r))));
+                    things.push(("the other consumers' observers".into(), Box::new(_keepers)));
+                    things.push(("the outer variables".into(), Box::new(env)));
+                    things.push(("the state".into(), Box::new(st)));
+                    let mut tr = Rng::new(mix(seed, 0x7ea2 ^ fault.map_or(0, |f| f.1)));
+                    tr.shuffle(&mut things);
+                    for (what, t) in things {
+                        if let Err(p) = catch_unwind(AssertUnwindSafe(move || drop(t))) {
+                            out.violations.push(("C13", format!("dropping {what} after the escaped panic panicked again: {}", crate::panic_message(p))));
+                        }
+                    }
+                    return;
+                }
                 out.actions.push("stabilise".into());
                 let events = log.borrow().clone();
+                out.stab_events.push(events.len() as u64);
                 out.fn_events += events.len() as u64;
                 for i in &active {
                     let o = &mut ops[*i];
@@ -890,6 +992,77 @@ fn inner(seed: u64, which: &str, out: &mut Outcome) {
         o.reader = None;
     }
     st.stabilise();
+}
+
+/// C13 over the map operators: for one stabilise per history, a panic at every user-function call
+pub fn run_faults(which: &str, seed: u64, shard: u64, start: u64, count: u64, cap: u64, progress: Option<&str>) -> J {
+    let (mut points, mut inside, mut histories) = (0u64, 0u64, 0u64);
+    let mut kinds: std::collections::BTreeMap<String, u64> = Default::default();
+    let mut violations = vec![];
+    let mut samples = vec![];
+    for i in start..count {
+        let hseed = mix(mix(seed, shard), i);
+        let clean = run_history(hseed, which);
+        if let Some((p, m)) = clean.violations.first() {
+            if violations.len() < 12 {
+                violations.push(J::obj(vec![
+                    ("property", J::s(*p)),
+                    ("message", J::s(format!("maps workload (run without injected panic, before enumerating crash points): {m}"))),
+                    ("argv", J::Arr(vec![J::s("maps-one"), J::s(which), J::s(hseed.to_string())])),
+                ]));
+            }
+            continue;
+        }
+        let cands: Vec<usize> = (0..clean.stab_events.len()).filter(|s| clean.stab_events[*s] > 0).collect();
+        if cands.is_empty() {
+            continue;
+        }
+        histories += 1;
+        // the first stabilise (everything is initialised), the last one, or one in between
+        let s = match i % 3 {
+            0 => cands[0],
+            1 => *cands.last().unwrap(),
+            _ => cands[(mix(hseed, 5) % cands.len() as u64) as usize],
+        };
+        let n = clean.stab_events[s];
+        let offsets: Vec<u64> = if n <= cap { (0..n).collect() } else { (0..cap).map(|j| j * n / cap).collect() };
+        for off in offsets {
+            if let Some(p) = progress {
+                let _ = std::fs::write(p, format!("maps-{which} {i} {hseed} {s} {off}\n"));
+            }
+            let o = run_history_fault(hseed, which, Some((s, off)));
+            let Some(kind) = o.fault_kind else { continue };
+            points += 1;
+            *kinds.entry(format!("crash_in_map_operator_{kind}")).or_default() += 1;
+            if off > 0 && off + 1 < n {
+                inside += 1;
+            }
+            if samples.is_empty() && off > 0 && off + 1 < n {
+                samples.push(J::obj(vec![("workload", J::s(format!("maps-{which}"))), ("history_seed", J::s(hseed.to_string())), ("stabilise", J::Int(s as i64)), ("user_function_calls_in_that_stabilise", J::Int(n as i64)), ("panic_at", J::Int(off as i64)), ("kind", J::s(kind))]));
+            }
+            for (p, m) in o.violations.iter().take(3) {
+                if violations.len() < 12 {
+                    violations.push(J::obj(vec![
+                        ("property", J::s(*p)),
+                        ("message", J::s(format!("maps-{which} workload, panic injected at user-function call {off} of stabilise #{s}: {m}"))),
+                        ("argv", J::Arr(vec![J::s("maps-fault-one"), J::s(which), J::s(hseed.to_string()), J::s(s.to_string()), J::s(off.to_string())])),
+                    ]));
+                }
+            }
+        }
+    }
+    let mut stats: Vec<(String, J)> = vec![("map_histories_with_a_crashable_stabilise".to_string(), J::Int(histories as i64)), ("map_crash_points_strictly_inside".to_string(), J::Int(inside as i64))];
+    for (k, v) in kinds {
+        stats.push((k, J::Int(v as i64)));
+    }
+    J::obj(vec![
+        ("workload", J::s(format!("maps-faults-{which}"))),
+        ("evaluations", J::Int(points as i64)),
+        ("nontrivial", J::Int(inside as i64)),
+        ("stats", J::Obj(stats)),
+        ("violations", J::Arr(violations)),
+        ("samples", J::Arr(samples)),
+    ])
 }
 
 pub fn run(which: &str, seed: u64, shard: u64, count: u64) -> J {
